@@ -322,3 +322,6 @@ def check_emit(rep, fx):
     rep.add('C07.R2', 'C07.R2:emit:nothing-else-fallible-between', not bad,
             'between the two updates only get_var(output) and to_bitstr() can fail, and not for a cell only emit/intercept_output write'
             if not bad else 'fallible step(s) %s between length update and append: an error leaves them out of step' % bad, f.name, f.at(sb))
+
+# as-built addendum
+EXPLANATION += ' As built (DESIGN 9.2): R1 also: packers have no failure mode of their own and a reader accepts every width its packer produces; R2 also: a fresh capture buffer starts at length 0.'
